@@ -9,6 +9,7 @@
 package sqlmini
 
 import (
+	"encoding/json"
 	"context"
 	"database/sql"
 	"database/sql/driver"
@@ -579,3 +580,28 @@ func parse(q string, d Dialect) (*stmt, error) {
 }
 
 var _ = context.Background
+
+// SetRevoked rewrites the key_record JSON of row (id, created) with "Revoked": true, the way an operator's UPDATE
+// statement would. Reports whether the row exists.
+func (db *DB) SetRevoked(id string, created int64) bool {
+	db.mu.Lock()
+	defer db.mu.Unlock()
+	for _, i := range db.byID[id] {
+		r := &db.rows[i]
+		if r.created.Unix() != created {
+			continue
+		}
+		var m map[string]json.RawMessage
+		if err := json.Unmarshal([]byte(r.record), &m); err != nil {
+			return false
+		}
+		m["Revoked"] = json.RawMessage("true")
+		b, err := json.Marshal(m)
+		if err != nil {
+			return false
+		}
+		r.record = string(b)
+		return true
+	}
+	return false
+}
